@@ -74,6 +74,7 @@ inductive Err
   | unsetMsg (msg : Str)    -- UnsetParameterError from `${x:?msg}`
   | indirect                -- "invalid indirect expansion"
   | negIndex                -- "negative array index"
+  | substr (len : Int)      -- "<len>: substring expression < 0"
   | unsupported
   | panic                   -- a Go run-time panic
   deriving DecidableEq, Repr
@@ -200,7 +201,8 @@ def Var.string (v : Var) : Except Err Str :=
   | .indexed => do
     let (s, ok) ← v.indexedVal 0
     pure (if ok then s else [])
-  | _ => .ok []
+  | .assoc => .ok (((v.map.find? (fun p => p.1 == ['0'])).map (·.2)).getD [])   -- v.Map["0"]
+  | .unknown => .ok []
 
 /-- `Variable.Flags`. -/
 def Var.flags (v : Var) : Str :=
@@ -308,7 +310,7 @@ def validName : Str → Bool
 /-- `namesByPrefix`: the names `Env.Each` yields (here: the entries whose name is an identifier). -/
 def namesByPrefix (env : Env) (p : Str) : Sl :=
   let ns := (env.filter fun e => validName e.1 && p.isPrefixOf e.1).map (·.1)
-  if ns.isEmpty then none else some (sortStrs ns)
+  some (sortStrs ns)     -- `names := []string{}`: never nil
 
 /-- Decimal literal with optional leading `-` signs; anything else evaluates to 0 (`atoi` of a
     word that is not a number and does not name a set variable: modelling restriction). -/
@@ -437,24 +439,12 @@ def firstNat (l : List Nat) (p : Nat → Bool) : Option Nat := l.find? p
 /-- indices `lo, lo+1, …, hi` -/
 def upTo (lo hi : Nat) : List Nat := List.range' lo (hi + 1 - lo)
 
-/-- The first newline at or after `i`, or the length. -/
-def lineEnd (s : Str) (i : Nat) : Nat :=
-  match (upTo i s.length).find? (fun j => j == s.length || s.getD j ' ' == '\n') with
-  | some j => j
-  | none => s.length
-
-/-- What `regexp.MustCompile(".*(" + E + ")$").FindStringSubmatchIndex(s)` selects as start of the
-    submatch: leftmost start `i` of the whole match, then the greedy `.*` — which has no `(?s)` and
-    stops at a newline — gives up characters until `E` matches the rest. -/
-def sufShortStart (m : Str → Bool) (s : Str) : Option Nat :=
-  (upTo 0 s.length).findSome? fun i =>
-    ((upTo i (lineEnd s i)).reverse).find? fun j => m (s.drop j)
-
 /-- `removePattern` given the compiled pattern. -/
 def removeWith (m : Str → Bool) (s : Str) (fromEnd shortest : Bool) : Str :=
   let n := s.length
   if fromEnd && shortest then
-    match sufShortStart m s with
+    -- "(?s).*(E)$": the greedy `.*` gives up characters until `E` matches the rest
+    match (upTo 0 n).reverse.find? (fun j => m (s.drop j)) with
     | some j => s.take j
     | none => s
   else if fromEnd then
@@ -575,18 +565,23 @@ def overridingUnset (pe : PE) : Bool :=
   | none => false
 
 /-- Rune slicing of `${x:o:l}` on a string. -/
-def sliceStr (s : Str) (off len : Option Int) : Str :=
+def sliceStr (s : Str) (off len : Option Int) : Except Err Str :=
   let s := match off with | some o => s.drop (slicePos s.length o) | none => s
-  match len with | some l => s.take (slicePos s.length l) | none => s
+  match len with
+  | some l =>
+    if l < 0 && (s.length : Int) + l < 0 then .error (.substr l)   -- "substring expression < 0"
+    else .ok (s.take (slicePos s.length l))
+  | none => .ok s
 
 def upperFirstRune : Str → Str
   | [] => []
   | c :: cs => toUpper c :: cs
 
 /-- The `syntax.OtherParamOps` arm (`${x@op}`). -/
-def otherOp (x : Ext) (name : Str) (orig : Var) (str arg : Str) : Except Err Str :=
+def otherOp (x : Ext) (name : Str) (orig : Var) (set : Bool) (str arg : Str) : Except Err Str :=
   if arg == ['Q'] then
-    match x.Q str with | some q => .ok q | none => .error .panic
+    if !set then .ok str       -- an unset parameter expands to nothing
+    else match x.Q str with | some q => .ok q | none => .error .panic
   else if arg == ['E'] then .error .unsupported      -- not modelled (never generated)
   else if arg == ['a'] then .ok orig.flags
   else if arg == ['A'] then
@@ -621,17 +616,21 @@ def paramExp (x : Ext) (cfg : Cfg) (env : Env) (pe : PE) : Except Err (Str × En
   if cfg.noUnset && !vr.set && !overridingUnset pe then throw Err.unbound
   -- the first switch: list expansions of unset variables and indexed arrays
   let positional := name == ['@'] || name == ['*']
-  let pre : Except Err (Str × Sl × Bool × Bool) :=   -- str, elems, indexAllElements, callVarInd
+  let pre : Except Err (Str × Sl × Bool × Bool × Bool) :=   -- str, elems, indexAllElements, callVarInd, set
     if isAtStar index then
       match vr.kind with
-      | .unknown => .ok ([], none, true, true)
+      | .unknown => .ok ([], none, true, true, vr.set)
       | .indexed => do
         let el ← sliceElems env pe vr.list vr.idx positional
-        pure (join el.toList, el, true, false)
-      | _ => .ok ([], none, false, true)
-    else .ok ([], none, false, true)
-  let (str0, elems0, indexAll, callVarInd) ← pre
-  let (str, set) ← if callVarInd then varInd ifs vr index else pure (str0, vr.set)
+        pure (join el.toList, el, true, false, vr.set)
+      | .assoc =>
+        let el := sortedSl (vr.map.map (·.2))
+        -- like Bash, a list without elements counts as unset (this arm only)
+        .ok (join el.toList, el, true, false, !el.toList.isEmpty)
+      | .string => .ok ([], none, false, true, vr.set)
+    else .ok ([], none, false, true, vr.set)
+  let (str0, elems0, indexAll, callVarInd, set0) ← pre
+  let (str, set) ← if callVarInd then varInd ifs vr index else pure (str0, set0)
   let elems : Sl := if indexAll then elems0 else some [str]
   if pe.length then
     let n : Nat := if isAtStar index then elems.toList.length else str.length
@@ -639,10 +638,10 @@ def paramExp (x : Ext) (cfg : Cfg) (env : Env) (pe : PE) : Except Err (Str × En
   if pe.excl then
     if pe.names != 0 then
       return (join (namesByPrefix env pe.name).toList, env)
-    if pe.idx != .none && vr.kind == .indexed then
+    if indexAll && pe.idx != .none && vr.kind == .indexed then
       let ks ← vr.indexedKeys
       return (join ks, env)
-    if pe.idx != .none && vr.kind == .assoc then
+    if isAtStar pe.idx && vr.kind == .assoc then
       return (join (sortStrs (vr.map.map (·.1))), env)
     if !vr.set then throw Err.indirect
     if str.isEmpty then return ([], env)
@@ -650,10 +649,14 @@ def paramExp (x : Ext) (cfg : Cfg) (env : Env) (pe : PE) : Except Err (Str × En
     return (join [s], env)
   match pe.slice with
   | some (off, len) =>
-    if callVarInd then return (sliceStr str off len, env) else return (str, env)
+    if callVarInd then
+      let r ← sliceStr str off len
+      return (r, env)
+    else return (str, env)
   | none =>
   match pe.repl with
   | some r =>
+    if !set && !indexAll then return (str, env)   -- like Bash, nothing is substituted in an unset parameter
     let el ← replaceElems x.M r elems
     return (join el.toList, env)
   | none =>
@@ -688,7 +691,7 @@ def paramExp (x : Ext) (cfg : Cfg) (env : Env) (pe : PE) : Except Err (Str × En
       let el ← caseConvElems x.M op arg elems
       return (join el.toList, env)
     | .other =>
-      let s ← otherOp x name orig str arg
+      let s ← otherOp x name orig set str arg
       return (s, env)
 
 /-! ### wordFields for a word that is one parameter expansion -/
@@ -704,7 +707,7 @@ def listElems (env : Env) (pe : PE) : Except Err (Option (Sl × Bool)) :=
     | .indexed => do
       let el ← sliceElems env pe vr.list vr.idx false
       pure (some (el, pe.idx.lit == ['*']))
-    | .assoc => pure (some (sortedSl (vr.map.map (·.2)), pe.idx.lit == ['*']))
+    | .assoc => pure (some (some (sortStrs (vr.map.map (·.2))), pe.idx.lit == ['*']))   -- never nil
     | _ => pure none
   else pure none
 
@@ -729,7 +732,7 @@ def quotedElemFields (x : Ext) (env : Env) (pe : PE) : Except Err Sl := do
       let vr := env.get pe.name
       match vr.kind with
       | .indexed => let ks ← vr.indexedKeys; return some ks
-      | .assoc => return sortedSl (vr.map.map (·.1))
+      | .assoc => return some (sortStrs (vr.map.map (·.1)))
       | _ => return none
     return none
   match ← listElems env pe with
@@ -740,15 +743,26 @@ def quotedElemFields (x : Ext) (env : Env) (pe : PE) : Except Err Sl := do
     if pe.idx.lit == ['@'] && !(env.get pe.name).set then return some []
     return none
 
-/-- `splitAdd`: the maximal runs of non-IFS runes; every IFS rune flushes.  State: finished fields
-    and the parts of the current field. -/
+/-- The state of `wordFields`: finished fields, the parts of the current field, and `wsDelim`
+    (the last field was ended by IFS white space). -/
 structure WF where
   fields : List Str
   cur : List Str
+  wsDelim : Bool
   deriving DecidableEq, Repr
 
 def WF.flush (w : WF) : WF :=
-  if w.cur.isEmpty then w else { fields := w.fields ++ [w.cur.flatten], cur := [] }
+  if w.cur.isEmpty then w else { w with fields := w.fields ++ [w.cur.flatten], cur := [] }
+
+/-- `ifsWhitespace`. -/
+def ifsWs (ifs : Str) (r : Char) : Bool := (r == ' ' || r == '\t' || r == '\n') && ifs.contains r
+
+/-- `delimit`: end the current field at the IFS character `r` (POSIX 2.6.5). -/
+def WF.delimit (ifs : Str) (w : WF) (r : Char) : WF :=
+  if !w.cur.isEmpty then { w.flush with wsDelim := ifsWs ifs r }
+  else if ifsWs ifs r then w                          -- leading or repeated IFS white space
+  else if w.wsDelim then { w with wsDelim := false }  -- white space + one other IFS character: one delimiter
+  else { w with fields := w.fields ++ [[]] }          -- another non-white-space IFS character: an empty field
 
 /-- The rune loop of `splitAdd`; `run` is the text since `fieldStart` (`none`: `fieldStart < 0`). -/
 def splitLoop (ifs : Str) : WF → Option Str → Str → WF
@@ -757,18 +771,23 @@ def splitLoop (ifs : Str) : WF → Option Str → Str → WF
   | w, run, r :: rest =>
     if ifs.contains r then
       let w := match run with | some t => { w with cur := w.cur ++ [t] } | none => w
-      splitLoop ifs w.flush none rest
+      splitLoop ifs (w.delimit ifs r) none rest
     else
       match run with
-      | none => splitLoop ifs w (some [r]) rest
-      | some t => splitLoop ifs w (some (t ++ [r])) rest
+      | none => splitLoop ifs { w with wsDelim := false } (some [r]) rest
+      | some t => splitLoop ifs { w with wsDelim := false } (some (t ++ [r])) rest
 
 def splitAdd (ifs : Str) (w : WF) (val : Str) : WF := splitLoop ifs w none val
 
+/-- The unquoted list loop: the elements are separated as if by the first IFS character
+    (a plain flush when IFS is empty). -/
 def addElemsSplit (ifs : Str) : WF → Bool → List Str → WF
   | w, _, [] => w
   | w, first, e :: rest =>
-    let w := if first then w else w.flush
+    let w := if first then w else
+      match ifs with
+      | [] => w.flush
+      | sep :: _ => w.delimit ifs sep
     addElemsSplit ifs (splitAdd ifs w e) false rest
 
 def addElemsQuoted : WF → Bool → List Str → WF
@@ -781,7 +800,7 @@ def addElemsQuoted : WF → Bool → List Str → WF
     the fields and the environment afterwards. -/
 def fields (x : Ext) (cfg : Cfg) (env : Env) (pe : PE) (quoted : Bool) : Except Err (List Str × Env) := do
   let ifs ← ifsOf env
-  let w0 : WF := ⟨[], []⟩
+  let w0 : WF := ⟨[], [], false⟩
   if quoted then
     match ← quotedElemFields x env pe with
     | some el => return ((addElemsQuoted w0 true el).flush.fields, env)
